@@ -1406,10 +1406,12 @@ pub struct RenderOpts {
     pub indent: bool,
     pub comments: bool,
     pub unroll_repeat: bool,
+    /// do not protect decorator-only spans (used by the check that reports that finding)
+    pub raw_decorators: bool,
 }
 impl Default for RenderOpts {
     fn default() -> Self {
-        RenderOpts { indent: false, comments: false, unroll_repeat: false }
+        RenderOpts { indent: false, comments: false, unroll_repeat: false, raw_decorators: false }
     }
 }
 
@@ -1417,8 +1419,34 @@ pub fn proc_name(prog: &Prog, idx: usize) -> String {
     prog.proc(idx).name.clone()
 }
 
+/// `true` if the instruction text is a decorator (produces no VM operation)
+fn is_decorator_txt(t: &str) -> bool {
+    t.starts_with("debug.") || t.starts_with("emit.") || t.starts_with("trace.") || t.starts_with("adv.")
+}
+
 fn render_nodes(prog: &Prog, nodes: &[Node], o: &RenderOpts, out: &mut String) {
+    // The assembler of the pinned tree panics on a span that holds decorators but no operation
+    // ("decorators in an empty SPAN block", span_builder.rs) - e.g. `call.f emit.1 call.g`. That is
+    // a finding of its own (see DESIGN.md); to search behind it such spans get a `push.0 drop`.
+    let mut span_has_op = false;
+    let mut pending_dec = false;
     for n in nodes {
+        match n {
+            Node::I(i) => {
+                if is_decorator_txt(&i.txt) {
+                    pending_dec = true;
+                } else if !i.txt.is_empty() {
+                    span_has_op = true;
+                }
+            }
+            _ => {
+                if pending_dec && !span_has_op && !o.raw_decorators {
+                    out.push_str("push.0 drop ");
+                }
+                span_has_op = false;
+                pending_dec = false;
+            }
+        }
         match n {
             Node::I(i) => {
                 out.push_str(&i.txt);
@@ -1426,26 +1454,26 @@ fn render_nodes(prog: &Prog, nodes: &[Node], o: &RenderOpts, out: &mut String) {
             }
             Node::If(t, f) => {
                 out.push_str("if.true ");
-                render_nodes(prog, t, o, out);
+                body_or_nop(prog, t, o, out);
                 if !f.is_empty() {
                     out.push_str("else ");
-                    render_nodes(prog, f, o, out);
+                    body_or_nop(prog, f, o, out);
                 }
                 out.push_str("end ");
             }
             Node::While(b) => {
                 out.push_str("while.true ");
-                render_nodes(prog, b, o, out);
+                body_or_nop(prog, b, o, out);
                 out.push_str("end ");
             }
             Node::Repeat(k, b) => {
                 if o.unroll_repeat {
                     for _ in 0..*k {
-                        render_nodes(prog, b, o, out);
+                        body_or_nop(prog, b, o, out);
                     }
                 } else {
                     out.push_str(&format!("repeat.{} ", k));
-                    render_nodes(prog, b, o, out);
+                    body_or_nop(prog, b, o, out);
                     out.push_str("end ");
                 }
             }
@@ -1456,9 +1484,15 @@ fn render_nodes(prog: &Prog, nodes: &[Node], o: &RenderOpts, out: &mut String) {
             Node::DynExec(p) => out.push_str(&format!("procref.{} dynexec ", proc_name(prog, *p))),
             Node::DynCall(p) => out.push_str(&format!("procref.{} dyncall ", proc_name(prog, *p))),
         }
+        if matches!(n, Node::ProcRef(_)) {
+            span_has_op = true;
+        }
         if o.comments {
             out.push_str("# c\n");
         }
+    }
+    if pending_dec && !span_has_op && !o.raw_decorators {
+        out.push_str("push.0 drop ");
     }
 }
 
